@@ -10,7 +10,8 @@ LO        == "LO"                       \* a low-order point used as a public ke
 Scenarios ==
   [sPriv : StaticIds, sClaim : StaticIds \cup {LO}, rs : RecipIds \cup {LO},
    ePriv : EphIds, eClaim : EphIds \cup {"E2", LO}, rPriv : RecipIds, rParam : RecipIds,
-   splice : {"none", "e", "encS", "encP"}]
+   splice : {"none", "e", "encS", "encP"},
+   forge : {"none", "skip_ss", "zero_ss"}]     \* attacker-built handshake that never used a sender private key
 
 (***************************************************************************)
 (* Layer A: what C05 states.                                               *)
@@ -33,7 +34,8 @@ Spliced(sc) ==   \* the spliced field really differs from the message's own fiel
   \/ sc.splice = "e" /\ sc.eClaim # "E2"
 
 C05Class(sc) ==
-  IF sc.rs = LO THEN "refused"
+  IF sc.forge # "none" THEN (IF sc.rs = LO THEN "may" ELSE "must_reject")   \* no sender private key took part
+  ELSE IF sc.rs = LO THEN "refused"
   ELSE IF sc.rPriv # sc.rs THEN "must_reject"
   ELSE IF sc.sClaim # sc.sPriv THEN "must_reject"
   ELSE IF Spliced(sc) THEN "must_reject"
